@@ -3,7 +3,11 @@ from vf.props import reg, COMMON_ASSUMPTIONS
 
 reg(Prop(
     'C12',
-    [Harness('c12_stream', parts=16, thorough_cfg='asan1')],
+    [Harness('c12_stream', parts=16, thorough_cfg='asan1'),
+     # thorough only: the quick workload without sanitizer instrumentation under valgrind memcheck (libstdc++.so -
+     # iostream, locale, codecvt, the extern-template std::string members - is not ASan-instrumented)
+     Harness('c12_stream_memcheck', src=['c12_stream.cpp'], cfg='plain', runner='valgrind', tiers=('thorough',), parts=16,
+             run_tier='quick', alarm=900)],
     rule='A case is one text: every text over {a, newline, space, tab} up to length 7 (char) / 6 (wchar_t) in quick and 10 / 9 in '
          'thorough (exhaustive), plus seeded random texts up to 60 (200 over a file stream) characters incl. CR. Per text: forward pass saving '
          'the position at every offset and reading past the end twice; for every saved position restore (directly after a failed read at end of '
